@@ -89,6 +89,9 @@ def forwarding(an: Analyzer, program: Program, params: Iterable[str],
                 if av is None:
                     out.append(FwdOb(fq, g.fq, pname, rec.node, False,
                                      f'`{pname}` is not passed: the callee silently uses its default', loc, text))
+                elif g.fq == caller.fq and av.const is not None and pname not in av.deps:
+                    out.append(FwdOb(fq, g.fq, pname, rec.node, True,
+                                     f'self-recursive re-entry with the fixed value {av.const!r}', loc, text))
                 elif pname not in av.deps:
                     out.append(FwdOb(fq, g.fq, pname, rec.node, False,
                                      f'`{pname}` of the callee is bound to an expression that does not depend on '
